@@ -159,7 +159,7 @@ def run_C04(ctx):
            ("rel", "P4zh", "S0", 3 if q else 4, ["--dirty"], {}), ("rel", "P4z", "S3", 3 if q else 4, ["--dirty"], {}),
            ("rel", "P4z", "S0", 3 if q else 4, ["--dirty"], {"MIMALLOC_PURGE_DELAY": "0", "MIMALLOC_PURGE_DECOMMITS": "0", "VF_RESET_ZERO": "0"})]
     return mixed_property(ctx, seq, grid,
-        rule="zchain: every strictly increasing chain of length 2..3 (thorough: ..4) over a size ladder (20 values, thorough 32; incl. 17 MiB, 17 MiB+100, 17 MiB+4000: growth in place inside the slack of a huge block on dirtied arena memory) x 6 rezalloc/recalloc variants on memory of the involved classes dirtied with 0xFF; zero: 16 zero-initialising entry points x boundary size grid x {recycled, after forced collect}; sequences: profile P4z/P4zh (zalloc/calloc/zalloc_aligned/rezalloc/recalloc/free with the dirty-before-free discipline) from S0/S2/S3, also with immediate purge by reset (MADV_FREE keeps contents).",
+        rule="(zero mode: 21 zero-initialising entry points including aligned forms whose alignment 1/8/16 a plain block satisfies anyway) zchain: every strictly increasing chain of length 2..3 (thorough: ..4) over a size ladder (20 values, thorough 32; incl. 17 MiB, 17 MiB+100, 17 MiB+4000: growth in place inside the slack of a huge block on dirtied arena memory) x 6 rezalloc/recalloc variants on memory of the involved classes dirtied with 0xFF; zero: 16 zero-initialising entry points x boundary size grid x {recycled, after forced collect}; sequences: profile P4z/P4zh (zalloc/calloc/zalloc_aligned/rezalloc/recalloc/free with the dirty-before-free discipline) from S0/S2/S3, also with immediate purge by reset (MADV_FREE keeps contents).",
         assumptions=COMMON_ASSUME + ["zero-tracked blocks are only written within their requested size (the statement is about bytes between the previous and the new *requested* size)"])
 
 def run_C05(ctx):
@@ -391,12 +391,14 @@ def run_C18(ctx):
         if not q or m == "10":
             plan.append(("rel", "purge", [], envs(e, {"MIMALLOC_DISALLOW_ARENA_ALLOC": "1"})))
             plan.append(("rel", "purge", [], envs(e, {"MIMALLOC_ARENA_RESERVE": "64MiB"})))
+        # a 4 GiB arena (two bitmap fields and more): the scenario with a huge segment across a field boundary only exists here
+        if m == "10" and (not q or d in ("0", "10")): plan.append(("rel", "purge", [], envs(e, {"MIMALLOC_ARENA_RESERVE": "4GiB"})))
         # lazily committed segments and arenas: a released page may coalesce with spans that were never committed
         if (not q or m == "10") and d != "-1":
             plan.append(("rel", "purge", [], envs(e, LAZY)))
             if not q or dc == "1": plan.append(("rel", "purge", [], envs(e, LAZY, {"MIMALLOC_DISALLOW_ARENA_ALLOC": "1"})))
     return os_property(ctx, plan, level="model_checking", parallel=8,
-        rule="(also with lazily committed segments and arenas, where a released page coalesces with spans that were never committed) scenario enumeration with the virtual clock: {what becomes unused: the last page of a size class (a 512 KiB page of 32 KiB blocks: mimalloc retires it for four fresh-page cycles; ordinary allocations alone -- no collect -- must release it and, a delay later, the release of another page must give its range back), a 1 MiB page of an abandoned segment (its owner exited with two live 1 MiB blocks, another thread frees one: a non-forced collect that visits the segment releases the page, and a second one a delay later must give it back), a 1 MiB page inside a live segment, a whole (huge) segment, everything, four huge segments (one per arena when arenas are 64 MiB: a non-forced pass purges at most two arenas and must stay armed, so three passes a delay period apart have to return all four), four non-adjacent pages of one segment, the same four pages with one of the spans taken and released again (delay+1000)/(delay-extend)+2 times before any time passes (re-use must re-arm the expiry, not accumulate it)} x {later activity: free another page of the segment, allocate in the segment, alloc+free a 40 MiB block, mi_collect(false), small fast-path traffic (negative control)} x {purge_delay -1/0/5/10} x {decommit, reset} x {arena_purge_mult 1, 10} x {arenas on, off, small}. Oracle from the shim's call log: delay 0 -> the freed range is covered by madvise/munmap before the freeing call returns; delay d>0 -> no purge of the range before the clock passes d (d*mult for whole segments) whatever happens, and after it has passed the activities that reach a purge point (page: free of another page; segment: any arena free or non-forced collect) return the range without a forced collect; delay -1 -> no purge call at all, even under mi_collect(true).",
+        rule="(also with lazily committed segments and arenas, where a released page coalesces with spans that were never committed) scenario enumeration with the virtual clock: {what becomes unused: the last page of a size class (a 512 KiB page of 32 KiB blocks: mimalloc retires it for four fresh-page cycles; ordinary allocations alone -- no collect -- must release it and, a delay later, the release of another page must give its range back), an 80 MiB segment that lies across the boundary of two bitmap fields of a 4 GiB arena (configurations with MIMALLOC_ARENA_RESERVE=4GiB; elsewhere the kind is void), a 1 MiB page of an abandoned segment (its owner exited with two live 1 MiB blocks, another thread frees one: a non-forced collect that visits the segment releases the page, and a second one a delay later must give it back), a 1 MiB page inside a live segment, a whole (huge) segment, everything, four huge segments (one per arena when arenas are 64 MiB: a non-forced pass purges at most two arenas and must stay armed, so three passes a delay period apart have to return all four), four non-adjacent pages of one segment, the same four pages with one of the spans taken and released again (delay+1000)/(delay-extend)+2 times before any time passes (re-use must re-arm the expiry, not accumulate it)} x {later activity: free another page of the segment, allocate in the segment, alloc+free a 40 MiB block, mi_collect(false), small fast-path traffic (negative control)} x {purge_delay -1/0/5/10} x {decommit, reset} x {arena_purge_mult 1, 10} x {arenas on, off, small}. Oracle from the shim's call log: delay 0 -> the freed range is covered by madvise/munmap before the freeing call returns; delay d>0 -> no purge of the range before the clock passes d (d*mult for whole segments) whatever happens, and after it has passed the activities that reach a purge point (page: free of another page; segment: any arena free or non-forced collect) return the range without a forced collect; delay -1 -> no purge call at all, even under mi_collect(true).",
         assumptions=COMMON_ASSUME + ["time is the shim's virtual clock", "allocating inside a segment re-arms its purge delay by design, so that activity is recorded as a control only"])
 
 # ------------------------------------------------------------------------------------------------
@@ -545,7 +547,7 @@ def run_C16(ctx):
         jobs.append(dict(bin=b, args=["--prop", ctx.pid], env={}, tag=f"{v}/arith", timeout=900))
     tot, samples, viol, infra, per_run, dl = agg_runs(ctx, jobs, parallel=3)
     cov = dict(evaluations=tot["nodes"], distinct_nontrivial=tot["nontrivial"],
-        rule="exhaustive enumeration of the compiled functions (harness includes src/static.c): (1) every size 0..131072 and all class boundaries/powers of two up to PTRDIFF_MAX: block size >= request, monotone, <= 25% waste above 64 B, mi_good_size >= n, idempotent and equal to mi_usable_size(mi_malloc(n)) up to the medium limit (equality and idempotence in the unpadded build only: with padding the usable size is the exact request by design); (2) history independence: all ordered pairs (i,j) of class-edge small sizes, sequence malloc(i); malloc(j); malloc(i) with usable == good_size at each step and every entry of the fast-path table pointing to a page of exactly its class; (3) span bins for all slice counts 0..1024; (4) address recovery on real pages: every bin that requests map to, pages at up to 600 positions across two segments, every block index of every page and interior offsets {0,1,8,bs/2,bs-1}, plus large/huge/over-aligned (up to 128 MiB) blocks with offsets up to the documented interior-pointer limit; (5) mi_fast_divide == '/' for all bin block sizes (+-8) x all multiples in a page and all divisors 1..65536 x quotients 0..64 and the largest 32-bit numerators; (6) align/divide/overflow/bit-scan helpers on a 343-value boundary grid squared against 128-bit reference arithmetic. distinct_nontrivial = inputs above the trivial range counted by the harness (sizes > 64, pairs of different classes, bins spanning more than one segment, all divisors).",
+        rule="(large and huge requests: every multiple of 4 KiB from 128 KiB to 64 MiB with -1/0/+1: the block mi_malloc hands out is at least the request, monotone in it and wastes at most 25%) exhaustive enumeration of the compiled functions (harness includes src/static.c): (1) every size 0..131072 and all class boundaries/powers of two up to PTRDIFF_MAX: block size >= request, monotone, <= 25% waste above 64 B, mi_good_size >= n, idempotent and equal to mi_usable_size(mi_malloc(n)) up to the medium limit (equality and idempotence in the unpadded build only: with padding the usable size is the exact request by design); (2) history independence: all ordered pairs (i,j) of class-edge small sizes, sequence malloc(i); malloc(j); malloc(i) with usable == good_size at each step and every entry of the fast-path table pointing to a page of exactly its class; (3) span bins for all slice counts 0..1024; (4) address recovery on real pages: every bin that requests map to, pages at up to 600 positions across two segments, every block index of every page and interior offsets {0,1,8,bs/2,bs-1}, plus large/huge/over-aligned (up to 128 MiB) blocks with offsets up to the documented interior-pointer limit; (5) mi_fast_divide == '/' for all bin block sizes (+-8) x all multiples in a page and all divisors 1..65536 x quotients 0..64 and the largest 32-bit numerators; (6) align/divide/overflow/bit-scan helpers on a 343-value boundary grid squared against 128-bit reference arithmetic. distinct_nontrivial = inputs above the trivial range counted by the harness (sizes > 64, pairs of different classes, bins spanning more than one segment, all divisors).",
         samples=samples, exhaustive=not dl, oracle_checks=tot["checks"], runs=per_run)
     return dict(coverage=cov, assumptions=COMMON_ASSUME[:2] + ["64-bit Linux; interior pointers are checked up to MI_MAX_SLICE_OFFSET_COUNT slices behind the page start (the documented limit for huge blocks)"], violations=viol, infra=infra)
 
@@ -581,7 +583,7 @@ def run_C20(ctx):
                     viol.append(dict(key=f"{ctx.pid}:exec-other-option:{name}", msg=f"MIMALLOC_{name.upper()}={val} changed other options: {others[:3]}", replay=""))
                 if len(exec_samples) < 2: exec_samples.append(f"exec: MIMALLOC_{name.upper()}={val} -> {name}={got.get(name)}")
     cov = dict(evaluations=tot["nodes"] + execs, distinct_nontrivial=tot["nontrivial"],
-        rule="(last case of the JSON section: the heap-allocated form of mi_stats_get_json when its buffer cannot grow -- the OS refuses new mappings, all spans of all segments are filled, only the 2 KiB and 4 KiB classes have one free block each between live neighbours: the text must end, terminated, inside the block it got, neighbours intact) (a) every option index and legacy name x {20 boolean spellings, 18 integer forms incl. LONG_MAX+-1 and 30-digit numbers, 26 malformed strings, and for the two KiB-valued options 23 magnitudes x 9 suffix spellings x 6 unit spellings around every overflow edge of N*2^10/2^20/2^30}: one variable in a private environment, all options re-initialised through the real mi_option_init, ALL options read back and compared with an independent reference parser (exact value, or default for malformed input; strings that are proper substrings of the boolean word lists are outside the claim); API round trips set/get/enable/disable/set_default incl. out-of-range indices; (b) values and look-alike variable names of every length 0..300 and 511..8193, 70000; (c) _mi_snprintf for every destination size 0..80 x {7 flag sets x 7 widths x 6 length modifiers x 9 conversions x boundary arguments} and the multi-conversion formats of the sources, destination ending exactly at a PROT_NONE page with a canary in front: no write outside, terminator at the returned length, output identical to the untruncated one when it fits; _mi_strlcpy/_mi_strlcat for all destination sizes 0..40 x source lengths 0..80; (d) mi_stats_get_json(n, buf) for every n from 0 to length+64 with the same placement, heap-allocated result syntactically valid JSON, mi_stats_print_out / mi_options_print chunks terminated, > 16 KiB through the delayed output buffer; (e) fresh processes with one MIMALLOC_* variable each (constructor path). The asan variant runs all of it under AddressSanitizer. distinct_nontrivial = cases counted by the harness as changing a value / exceeding a buffer.",
+        rule="(out-of-range option indices -1, last, 1000 through set/enable/set_default: table and the memory directly behind it unchanged, reads give 0) (last case of the JSON section: the heap-allocated form of mi_stats_get_json when its buffer cannot grow -- the OS refuses new mappings, all spans of all segments are filled, only the 2 KiB and 4 KiB classes have one free block each between live neighbours: the text must end, terminated, inside the block it got, neighbours intact) (a) every option index and legacy name x {20 boolean spellings, 18 integer forms incl. LONG_MAX+-1 and 30-digit numbers, 26 malformed strings, and for the two KiB-valued options 23 magnitudes x 9 suffix spellings x 6 unit spellings around every overflow edge of N*2^10/2^20/2^30}: one variable in a private environment, all options re-initialised through the real mi_option_init, ALL options read back and compared with an independent reference parser (exact value, or default for malformed input; strings that are proper substrings of the boolean word lists are outside the claim); API round trips set/get/enable/disable/set_default incl. out-of-range indices; (b) values and look-alike variable names of every length 0..300 and 511..8193, 70000; (c) _mi_snprintf for every destination size 0..80 x {7 flag sets x 7 widths x 6 length modifiers x 9 conversions x boundary arguments} and the multi-conversion formats of the sources, destination ending exactly at a PROT_NONE page with a canary in front: no write outside, terminator at the returned length, output identical to the untruncated one when it fits; _mi_strlcpy/_mi_strlcat for all destination sizes 0..40 x source lengths 0..80; (d) mi_stats_get_json(n, buf) for every n from 0 to length+64 with the same placement, heap-allocated result syntactically valid JSON, mi_stats_print_out / mi_options_print chunks terminated, > 16 KiB through the delayed output buffer; (e) fresh processes with one MIMALLOC_* variable each (constructor path). The asan variant runs all of it under AddressSanitizer. distinct_nontrivial = cases counted by the harness as changing a value / exceeding a buffer.",
         samples=samples + exec_samples, exhaustive=not dl, oracle_checks=tot["checks"], exec_cases=execs, runs=per_run)
     return dict(coverage=cov, assumptions=COMMON_ASSUME[:1] + ["boolean substrings (e.g. 'E' parses as true through strstr) and leading blanks accepted by strtol are outside the claim", "values longer than 64 characters are truncated by the option buffer: only safety is checked for them"], violations=viol, infra=infra)
 
